@@ -124,6 +124,13 @@ let p_atom (a : atom) =
   add "["; p_str a.a_element; add ","; p_bool a.a_aromatic; add ","; p_opt p_n a.a_isotope; add ",";
   p_opt p_str a.a_chirality; add ","; p_opt p_n a.a_hcount; add ","; p_z a.a_charge; add "]"
 
+let p_satom (a : satom) =
+  add "["; p_str a.sa_elem; add ","; p_bool a.sa_arom; add ","; p_opt p_n a.sa_iso; add ",";
+  p_opt p_str a.sa_chi; add ","; p_opt p_n a.sa_h; add ","; p_z a.sa_charge; add "]"
+let p_slot (s : slot) =
+  add "["; p_nat s.sl_to; add ","; p_z s.sl_order2; add ","; p_opt p_n s.sl_mark; add ","; p_bool s.sl_ring; add "]"
+let p_smol (m : smol) = add "["; p_list p_satom m.sm_atoms; add ","; p_list (p_list p_slot) m.sm_nbrs; add "]"
+
 let handle (req : json) : unit =
   match req with
   | JArr (JStr op :: args) -> begin
@@ -151,6 +158,16 @@ let handle (req : json) : unit =
         p_res (p_list (p_list p_z)) (batch_selfies_to_flat_hot (j_list j_str batch) (j_list (j_pair j_str j_z) stoi) (j_z pad))
     | "f2b", [batch; itos] ->
         p_res (p_list p_str) (batch_flat_hot_to_selfies (j_list (j_list j_z) batch) (j_list (j_pair j_z j_str) itos))
+    | "valid", [t; s] -> p_bool (valid_smiles_under (j_table t) (j_str s))
+    | "read", [s] -> p_opt p_smol (read_smiles (j_str s))
+    | "geval", [t; toks] -> p_res p_smol (grammar_eval (j_table t) (j_list j_str toks))
+    | "c02", [t; toks; out] ->
+        (match grammar_eval (j_table t) (j_list j_str toks) with
+         | Err e -> add "{\"err\":\""; add (exn_name e); add "\"}"
+         | Ok m -> (match read_smiles (j_str out) with
+                    | None -> add "{\"ok\":false,\"why\":\"unreadable\"}"
+                    | Some m2 -> add "{\"ok\":"; p_bool (smol_eqb m m2); add "}"))
+    | "elements", [] -> p_list p_str elements
     | "idx_to", [n] -> p_res (p_list p_str) (get_selfies_from_index (j_z n))
     | "modernize", [s] -> p_res p_str (modernize_symbol (j_str s))
     | "atom_sym", [t; s] ->
